@@ -337,14 +337,22 @@ static void list_units(const std::string& tier0)
             for (auto& sh : shapes) { snprintf(b,sizeof b,"profile=c02,kind=%s,shape=%s,depth=%d,cat=%d,cfgs=%s", k.c_str(), sh.c_str(), asan?2:3, th?8:6, th?"pols36":"pols6"); emit(b, th?8:2); }
         }
     } else if (P=="c06") {
-        int depth = asan ? 3 : (th ? 4 : 3);
         for (const char* pol : {"eao","eap","ean","sgp","fho"}) {
             if (asan && strcmp(pol,"eao") && strcmp(pol,"eap")) continue;
             for (const char* k : {"S:MTb:F","S:MTi:Q","S:EVpi:F","R:MTb:I","R:EVtr:F"}) {
                 const char* sh = k[0]=='R' ? "S3" : "S7";
-                snprintf(b,sizeof b,"profile=c06,kind=%s,shape=%s,depth=%d,cat=8,pol=%s", k, sh, depth, pol); emit(b, th?16:4);
+                // quick: depth 3 for the optimistic/pessimistic defaults on two kinds, depth 2 elsewhere; thorough: depth 4 / 3
+                bool deep = (!strcmp(pol,"eao") || !strcmp(pol,"eap")) && (!strcmp(k,"S:MTb:F") || !strcmp(k,"R:MTb:I"));
+                int depth = th ? (asan ? 3 : (deep ? 4 : 3)) : (asan ? 2 : (deep ? 3 : 2));
+                if (asan && !deep) continue;
+                snprintf(b,sizeof b,"profile=c06,kind=%s,shape=%s,depth=%d,cat=8,pol=%s", k, sh, depth, pol); emit(b, depth>=3 ? 16 : 2);
             }
-            for (const char* rr : {"I","F"}) for (const char* k : {"S:MTb:F","S:MTb:Q"}) { snprintf(b,sizeof b,"profile=c06,kind=%s,shape=S4,depth=%d,cat=6,pol=%s,rel=%s", k, depth, pol, rr); emit(b, th?16:4); }
+            for (const char* rr : {"I","F"}) for (const char* k : {"S:MTb:F","S:MTb:Q"}) {
+                bool deep = (!strcmp(pol,"eao") || !strcmp(pol,"eap")) && !strcmp(rr,"I") && !strcmp(k,"S:MTb:F");
+                int depth = th ? (asan ? 3 : (deep ? 4 : 3)) : (asan ? 2 : (deep ? 3 : 2));
+                if (asan && !deep) continue;
+                snprintf(b,sizeof b,"profile=c06,kind=%s,shape=S4,depth=%d,cat=6,pol=%s,rel=%s", k, depth, pol, rr); emit(b, depth>=3 ? 16 : 2);
+            }
         }
     } else if (P=="c07") {
         for (const char* pol : {"eao","eap"}) for (const char* k : {"S:MTb:F","S:MTi:Q","R:MTb:I"}) {
